@@ -28,7 +28,7 @@ ASSUMPTIONS = ['ratio metrics (smape, rpd, rmspe) are compared definitionally on
                'relative tolerance 1e-9 (+1e-12 absolute) against the math.fsum reference; cache transparency is bit-exact',
                'canonical state = key set: sound because every stored value is checked to equal the fresh recomputation of its key']
 BOUNDS = {'quick': {'definition': 'P n=3..5 (ratio metrics), A n=3,4 + A12 n=5 (r2, rmsle); every breakpoint set', 'BFS': '24 curves n=5 x 5 metrics to closure; 4 curves n=6'},
-          'thorough': {'definition': 'P n<=6, A n<=5, A12 n=6', 'BFS': '96 curves n=5, 16 curves n=6, 2 curves n=7'}}
+          'thorough': {'definition': 'P n<=6, A n<=5, A12 n=6', 'BFS': '96 curves n=5, 32 curves n=6 (closure reached; n=7 has up to 2^21 key sets and is not attempted)'}}
 TECHNIQUE = 'explicit-state BFS over cache histories of the real compute_global_cost (to closure) plus bounded-exhaustive definitional comparison over all breakpoint sets'
 LEVEL_TEXT = ('Model checking: the cache is explored as a state machine - every query from every reachable cache state, including caches inherited from grdp - with bit-exact '
               'comparison against fresh evaluations; the value itself is checked against the definition for every breakpoint set of every small curve.')
@@ -44,7 +44,7 @@ def units(tier, seed):
         bfs = [(5, 24), (6, 4)]
     else:
         plan = [('P', 3, 1), ('P', 4, 4), ('P', 5, 16), ('P', 6, 256), ('A', 4, 8), ('A', 5, 128), ('A12', 6, 256)]
-        bfs = [(5, 96), (6, 16), (7, 2)]
+        bfs = [(5, 96), (6, 32)]
     for prof, n, K in plan:
         for k in range(K):
             u.append(('def', prof, n, k, K))
